@@ -64,12 +64,11 @@ theorem emptied_offset_table_partial (ps : List Param) (fs : List Nat) (cap byte
   rw [hempty] at h
   exact empty_offset_table h
 
-theorem emptied_stride_partial (ps : List Param) (fs : List Nat) (cap bytes : Nat) (junk : Nat → Nat)
+theorem emptied_stride (ps : List Param) (fs : List Nat) (cap bytes : Nat) (junk : Nat → Nat)
     (hl : ListOK ps) (hf : isFixedOrPlain ps = true) (hlf : ps.length ≤ fs.length)
-    (ht : (Vec.new ps fs cap bytes junk).trivialReloc = true)
     (ops : List VOp) (hv : C01.ValidFixed ps fs [] ops) (hempty : ops.foldl VOp.spec [] = []) :
     EmptyObs (ops.foldl (VOp.apply junk) (Vec.new ps fs cap bytes junk)) := by
-  have h := (FixInv.new ps fs cap bytes junk hl hf hlf).history ht junk ops (C01.validFix_of_counts ps fs hl hf hlf ops [] hv)
+  have h := (FixInv.new ps fs cap bytes junk hl hf hlf).history_all junk ops (C01.validFix_of_counts ps fs hl hf hlf ops [] hv)
   rw [hempty] at h
   exact empty_stride h
 
